@@ -828,11 +828,19 @@ func (r *Raft) submitReadOnlyOperation(
 		return operationFuture
 	}
 
+	// Until this node has committed an entry from its own term, its commit index may be
+	// behind entries that previous leaders committed and acknowledged. Once such an entry
+	// is committed, so is everything before it: wait for the whole log in that case.
+	readIndex := r.commitIndex
+	if !r.committedThisTerm() {
+		readIndex = r.log.LastIndex()
+	}
+
 	r.operationManager.sequence++
 	operation := &Operation{
 		Bytes:         operationBytes,
 		OperationType: readOnlyType,
-		readIndex:     r.commitIndex,
+		readIndex:     readIndex,
 		sequence:      r.operationManager.sequence,
 	}
 	r.operationManager.pendingReadOnly[operation] = operationFuture.responseCh
